@@ -24,6 +24,9 @@ def run(rep, tier):
     fb, la = c.fb, c.la
     rep.covered(tus=len(fb.tus), extracted=fb.extracted, functions=len(fb.funcs))
 
+    from .. import exc as excm0
+    from .C07 import INFEASIBLE as INF0
+    exflow = excm0.ExcFlow(fb, infeasible=set(INF0))
     # ---- R11.1
     for eq in ENGINES:
         f = fb.fn(eq)
@@ -87,7 +90,7 @@ def run(rep, tier):
         rep.minimum('R11.1', len(dels), 2, '_invocations removals in ' + eq)
         from .. import exc as excm
         from .C07 import INFEASIBLE
-        gx = path.EHCFG(f, excm.ExcFlow(fb, infeasible=set(INFEASIBLE))) if tier == 'thorough' else g
+        gx = path.EHCFG(f, exflow)
         for n in inv:
             w = gx.can_reach(gx.pos[n['id']], [ext['id'], 'EXIT'], avoid=[a['id'] for a in adds])
             rep.check(w is None, 'R11.1', '%s|invoke recorded' % eng, locstr(n), 'after invoke every path records the state in _invocations before the step goes on: %s' % (w is None))
@@ -100,6 +103,13 @@ def run(rep, tier):
         for a in f.ancestors(inv[0]):
             if a['k'] == 'IfStmt' and any(s.get('ref', {}).get('name') == '_invocations' for s in sub(a['c'][0])):
                 guarded = True
+            if a['k'] == 'CompoundStmt':
+                # `if (<member test>) continue;` earlier in the same loop body
+                for st in a.get('c', []):
+                    if st['loc'][1] >= inv[0]['loc'][1]:
+                        break
+                    if st['k'] == 'IfStmt' and any(s.get('ref', {}).get('name') == '_invocations' for s in sub(st['c'][0])) and any(s['k'] == 'ContinueStmt' for s in sub(st['c'][1])):
+                        guarded = True
         rep.check(guarded, 'R11.1', eng + '|skip-already-invoked', locstr(inv[0]), 'invoke is guarded by a membership test of _invocations: %s' % guarded)
         # completion: uninvoke site in the completion bracket must depend on _invocations only, not on the configuration
         cu = [u for u in uninv if u['id'] in comp_ids]
@@ -134,6 +144,15 @@ def run(rep, tier):
     keyed = any(a['k'] == 'IfStmt' and any(s.get('ref', {}).get('name') == 'invokeid' for s in sub(a['c'][0])) and any(s.get('ref', {}).get('name') == '_finalize' for s in sub(a['c'][0])) for a in dqx.ancestors(fin[0]))
     fkeyed = any(a['k'] == 'IfStmt' and any(s.get('ref', {}).get('name') == '_autoForwarders' for s in sub(a['c'][0])) for a in dqx.ancestors(fwd[0]))
     before = all(gq.can_reach(gq.pos[r['id']], [fin[0]['id'], fwd[0]['id']]) is None for r in rets if r['id'] in gq.pos)
+    # every event of the stream is forwarded: the only conditions on the way to the forwarding call are "an event was
+    # dequeued" and the membership test in _autoForwarders -- nothing that filters by a property of the event
+    filt = []
+    for a in dqx.ancestors(fwd[0]):
+        if a['k'] == 'IfStmt':
+            cnames = [s_['ref']['name'] for s_ in sub(a['c'][0]) if s_['k'] == 'MemberExpr']
+            if any(x in ('eventType', 'name', 'origin', 'origintype', 'sendid', 'data', 'invokeid') for x in cnames):
+                filt.append(a)
+    rep.check(not filt, 'R11.2', 'dequeueExternal|autoforward unfiltered', locstr(fwd[0]), 'autoforwarding is conditioned only on the dequeue and on _autoForwarders: %s%s' % (not filt, '' if not filt else '; extra filter: ' + fb.text(filt[0]['c'][0])[:100]))
     rep.check(keyed and fkeyed and before, 'R11.2', 'dequeueExternal', dqx.where(), 'finalize keyed by the event\'s invokeid: %s; autoforward keyed by _autoForwarders: %s; both before the event is returned: %s' % (keyed, fkeyed, before))
 
     # ---- R11.3
